@@ -68,8 +68,19 @@ def main(argv):
     # K: model tokens = tokens of the real text
     k_bad = []
     if model_ok:
-        mt = U.model_tokens([e for _, e in todo])
-        for (name, e), toks, text in zip(todo, mt, texts):
+        mt = U.model_tokens_wf([e for _, e in todo])
+        not_wf = []
+        for (name, e), (toks, wf), text in zip(todo, mt, texts):
+            # the hypothesis of C03.unparse_derives must cover the trees the parser produces
+            if wf is True:
+                ck.count("theorem_hypothesis_holds")
+            elif wf is False:
+                ck.count("theorem_hypothesis_fails")
+                why = outside_hypothesis(e)
+                if why:
+                    ck.count("outside_hypothesis:" + why)
+                elif gen_expr.parser_producible(e):
+                    not_wf.append((name, e))
             if text is None:
                 continue
             rt = U.tokens_of_text(text)
@@ -80,6 +91,9 @@ def main(argv):
                 k_bad.append((name, e, text, f"model tokens {toks} != real tokens {rt}"))
             else:
                 ck.count("K_agree")
+    if model_ok and not_wf:
+        ck.broken.append(f"coverage: {len(not_wf)} parser-producible trees are outside the hypothesis wfE of C03.unparse_derives, first: "
+                         f"{not_wf[0][0]}: {ast.dump(not_wf[0][1])[:300]}")
     if k_bad:
         ck.broken.append(f"correspondence K(unparse): model and expr_unparse differ on {len(k_bad)} trees, first: {k_bad[0][0]}: {k_bad[0][3][:300]}")
     failing.sort(key=lambda f: len(ast.dump(f[1])))
@@ -98,6 +112,21 @@ def main(argv):
         extra={"R_failures": len(failing), "K_disagreements": len(k_bad), "trees_checked": len(todo)},
         assumptions=["M-GRAMMAR (the Derives relation) is a hand transcription of CPython's expression grammar",
                      "token gluing (text -> tokens) is checked by tokenize on every generated case, not proved"])
+
+
+def outside_hypothesis(e):
+    """trees the parser can produce that the hypothesis wfE of C03.unparse_derives leaves out on purpose"""
+    for n in ast.walk(e):
+        if isinstance(n, ast.JoinedStr) and any(isinstance(v, ast.Constant) and v.value == "" for v in n.values):
+            # CPython 3.12.0/3.12.1 leave an empty Constant after a nested field of a format spec (f'{x:{w}}')
+            return "empty-literal-part-in-fstring"
+    try:
+        compile(ast.fix_missing_locations(ast.Expression(body=e)), "<t>", "eval")
+    except SyntaxError:
+        return "parser-accepts-compiler-refuses"     # e.g. (yield *a), f'{*a}'
+    except Exception:
+        pass
+    return None
 
 
 def replay(ck, ol):
